@@ -1,20 +1,20 @@
 SPECIFICATION Spec
 CONSTANTS
   Proc = {p1}
-  Version = {"v1"}
-  Needs <- NeedsCollide
+  Version = {"v1", "v2"}
+  Needs <- NeedsB
   KD = 1
-  MaxTime = 2
-  MaxPacks = 5
+  MaxTime = 1
+  MaxPacks = 4
   MaxCmds = 3
   Concurrent = FALSE
-  AllowInstant = TRUE
+  AllowInstant = FALSE
   AppendOnly = FALSE
-  AllowDamage = FALSE
+  AllowDamage = TRUE
   AllowCrash = TRUE
   AllowEarly = FALSE
   TickInPrune = TRUE
-  UntypedDedup = TRUE
+  UntypedDedup = FALSE
 VIEW View
-INVARIANTS AllReadable
+INVARIANTS TypeOK Rebuilt
 CHECK_DEADLOCK FALSE
